@@ -36,7 +36,7 @@ func makeAdditionalAnyJSONObjects(r schema.RuleASTNode) AdditionalPropertiesAnyJ
 		s = AdditionalPropertiesAnyJsonItem{
 			Type: internal.StringRef(r.Value),
 		}
-	case internal.StringFloat:
+	case internal.StringFloat, "decimal":
 		s = AdditionalPropertiesAnyJsonItem{
 			Type: internal.StringRef(internal.StringNumber),
 		}
@@ -90,6 +90,9 @@ func makeAdditionalAnyJSONObjects(r schema.RuleASTNode) AdditionalPropertiesAnyJ
 			s = AdditionalPropertiesAnyJsonItem{
 				Ref: internal.StringRef(fmt.Sprintf(`#/components/schemas/%s`, strings.TrimLeft(r.Value, "@"))),
 			}
+		} else if r.Value == internal.StringEnum || r.Value == "mixed" {
+			// "enum" and "mixed" without a list say nothing about the value: an empty (any) schema.
+			s = AdditionalPropertiesAnyJsonItem{}
 		} else {
 			panic(errs.ErrRuntimeFailure.F()) // FIXME: may be: s = AdditionalPropertiesAnyJsonItem{}
 		}
